@@ -125,6 +125,18 @@ class C04(Spec):
             # -0.0 is a zero value for `omitzero` (reflect IsZero: v.Float() == 0), so the member is dropped and the
             # decoder leaves +0.0; the Go 1.23.5 reference ignores omitzero and cannot vouch for this case
             return out
+        if "invalid_utf8" in feats:
+            # ill-formed UTF-8 cannot come back byte for byte (both libraries write U+FFFD or the raw bytes); what the
+            # property still says - containers element-wise, the well-formed strings byte for byte - is judged by
+            # reading sonic's text and encoding/json's text with the same decoder and comparing the two values
+            # not judged this way: callbacks / RawMessage (their text is stored as is), keys that collide once coerced,
+            # NoNullSliceOrMap (nil inside interface{} comes back as an empty container), omitzero (Go 1.23 reference)
+            plain = "(lib " not in case[2] + case[3] and "raw" not in case[2] + case[3] and "invalid_utf8_key" not in feats \
+                and "NoNullSliceOrMap" not in o and "omitzero" not in feats and "omitempty_neg_zero" not in feats \
+                and not (feats & {"float_map_key", "bool_map_key"})
+            if plain and s.get("ref") == "ok" and s.get("rtx") in ("ne", "err"):
+                out.append(("roundtrip-differs-from-reference-text", "opts=%s rtx=%s out=%s" % (sorted(o), s.get("rtx"), s.get("out", "")[-300:])))
+            return out
         if s.get("ref") == "ok" and s.get("rrt") in ("eq", "le") and "invalid_utf8" not in feats:
             allowed = {"eq"}
             if s["rrt"] == "le" or "NoNullSliceOrMap" in o:
